@@ -80,8 +80,13 @@ def check_one(ctx, lib, rng, par, attrs, kind, case):
                     ctx.violation("C11/export/%s" % type(e).__name__, "json-dumps-of-reference", cfg, expected=exp_text[:300], observed=repr(e)[:300])
                     return False
                 if got != exp_text:
-                    ctx.violation("C11/export/text", "json-dumps-of-reference", cfg, expected=exp_text[:600], observed=str(got)[:600])
-                    return False
+                    # the insertion order of a node's instance dict is not part of the statement: accept the text only if it is
+                    # exactly json.dumps of what the (C10-checked) DictExporter produces and that equals the reference up to key order
+                    real = (de if mode == "custom" else DictExporter(maxlevel=ml)).export(nodes[s])
+                    if not (isinstance(got, str) and got == json.dumps(real, **jopts) and c10.deep_eq(c10._plain(real), c10._plain(exp_dict))):
+                        ctx.violation("C11/export/text", "json-dumps-of-reference", cfg, expected=exp_text[:600], observed=str(got)[:600])
+                        return False
+                    exp_text = got
                 ctx.count("mon.C11.write")
                 buf = io.StringIO()
                 exporter.write(nodes[s], buf)
@@ -132,7 +137,10 @@ def check_one(ctx, lib, rng, par, attrs, kind, case):
                 exporter.write(nodes[0], fh)
             with open(path, encoding="utf-8") as fh:
                 text = fh.read()
-            exp_text = json.dumps(c10.ref_export(recorded, ch, 0, None, None, None, dict), **jopts)
+            ref0 = c10.ref_export(recorded, ch, 0, None, None, None, dict)
+            exp_text = json.dumps(ref0, **jopts)
+            if text != exp_text and text == exporter.export(nodes[0]) and c10.deep_eq(c10._plain(json.loads(text)), c10._plain(json.loads(exp_text))):
+                exp_text = text  # same content, only the (unspecified) key order of plain dicts differs
             if text != exp_text:
                 ctx.violation("C11/write/file", "write-equals-export", dict(case, json_opts=repr(jopts)), expected=exp_text[:400], observed=text[:400])
                 return False
